@@ -100,6 +100,17 @@ def e1_merge_algo(ctx):
     devs(ctx, "MergeAlgo", ["CopyPathIgnoresDrops", "FreqFromCard", "OneHitAnyFreq", "SamePrefixOnly"], "AllRefine")
 
 
+def e2_merge_algo(ctx):
+    """E2: every configuration the MergeAlgo model was checked on (catalogue pairs x all deletion sets) is
+    executed on the real merger, followed by the identity merge of the result (C17)."""
+    import lift
+    behs = tlc_emit(ctx, "MergeAlgo", "Gen_MergeAlgo.cfg", os.path.join(ctx.work, "beh-merge.json"))
+    behs = lift.dedupe(behs)
+    if ctx.quick:
+        behs = behs[ctx.seed % 3::3]
+    run_scenarios(ctx, [lift.lift_merge(b, i) for i, b in enumerate(behs)], "e2merge", perfile=16, shards=4)
+
+
 def e1_algebra(ctx):
     tlc_mc(ctx, "IceAlgebra", "MC_IceAlgebra_%s.cfg" % tier(ctx))
 
@@ -157,6 +168,7 @@ def plan_tmp(ctx):
 
 
 def plan_C02(ctx):
+    e2_merge_algo(ctx)
     e1_enumerator(ctx)
     e1_merge_algo(ctx)
     e1_chunking(ctx)
@@ -293,6 +305,7 @@ def plan_C16(ctx):
 
 
 def plan_C17(ctx):
+    e2_merge_algo(ctx)
     e1_algebra(ctx)
     e1_merge_algo(ctx)
     run_family(ctx, "assoc", n_of(ctx, 120, 2500), perfile=n_of(ctx, 10, 20))
